@@ -307,6 +307,8 @@ def run(ctx, obs, prop: str):
     obs.analysed['sweep_loop_state'] = loop_state(ctx, obs, pre)
     obs.analysed['sweep_loop_carry'] = loop_carry(ctx, obs, pre)
     obs.analysed['sweep_loop_shadow'] = loop_shadow(ctx, obs, pre)
+    obs.analysed['sweep_late_binding'] = late_binding(ctx, obs, pre)
+    obs.analysed['sweep_name_keyed_memos'] = name_keyed_memo(ctx, obs, pre)
     obs.analysed['sweep_stale_defaults'] = stale_default(ctx, obs, pre)
     obs.analysed['sweep_lossy_guards'] = lossy_guard(ctx, obs, pre + EXTRA_SELECT_SCOPE.get(prop, []))
     obs.analysed['sweep_triangular_solves'] = triangular_solve(ctx, obs, pre)
@@ -1337,6 +1339,13 @@ def lossy_guard(ctx, obs, prefixes: Sequence[str], rule='LOSSY-GUARD') -> int:
         if not _in_scope(q, prefixes) or f.parent is not None:
             continue
         params = set(f.params)
+        proj_locals = {}
+        for a_ in ast.walk(f.node):
+            if isinstance(a_, ast.Assign) and len(a_.targets) == 1 and isinstance(a_.targets[0], ast.Name):
+                for e_ in ast.walk(a_.value):
+                    if isinstance(e_, ast.Call) and _leafname(e_.func) in ('diag', 'diagonal', 'trace', 'unique', 'set', 'sorted') and e_.args \
+                            and isinstance(e_.args[0], ast.Name) and e_.args[0].id in params:
+                        proj_locals[a_.targets[0].id] = (e_.args[0].id, 'proj:' + _leafname(e_.func))
         for st in ast.walk(f.node):
             if not isinstance(st, ast.If):
                 continue
@@ -1361,6 +1370,12 @@ def lossy_guard(ctx, obs, prefixes: Sequence[str], rule='LOSSY-GUARD') -> int:
                     elif isinstance(p_, ast.Subscript) and p_.value is x and isinstance(p_.slice, ast.Constant):
                         how = 'proj:[%r]' % (p_.slice.value,)
                     reads.setdefault(x.id, set()).add(how)
+            # locals that hold a projection of a parameter: v = np.diag(p) if p.ndim >= 2 else p  (one branch projects)
+            for x in ast.walk(st.test):
+                if isinstance(x, ast.Name) and isinstance(x.ctx, ast.Load) and x.id in proj_locals and x.id not in params:
+                    pn, how = proj_locals[x.id]
+                    if pn not in reads or 'whole' not in reads[pn]:
+                        reads.setdefault(pn, set()).add(how)
             for pname, hows in reads.items():
                 if 'whole' in hows:
                     continue
@@ -1495,3 +1510,98 @@ def _guards_of(root, stmt):
         return False
     rec(root, [])
     return out
+
+
+
+# -------------------------------------------------------------------------------------------------------- NAME-KEY
+def name_keyed_memo(ctx, obs, prefixes: Sequence[str], rule='NAME-KEY') -> int:
+    """`{m.name: f(m) for m in models}` read back as `d[m.name]`: a table of per-item results keyed by a LABEL of the item (name,
+    label, title) instead of its position / identity.  Two items with the same label - the same model passed twice with different
+    parameters, two models a user did not bother to name - share one entry and one of them is evaluated with the other's result."""
+    prog = ctx.prog
+    n = 0
+    for q, f in sorted(prog.functions.items()):
+        if not _in_scope(q, prefixes) or f.parent is not None:
+            continue
+        for st in ast.walk(f.node):
+            if not (isinstance(st, ast.Assign) and len(st.targets) == 1 and isinstance(st.targets[0], ast.Name) and isinstance(st.value, ast.DictComp)):
+                continue
+            dc = st.value
+            key = dc.key
+            if not (isinstance(key, ast.Attribute) and key.attr in ('name', 'label', 'title') and isinstance(key.value, ast.Name)):
+                continue
+            loopvars = {x.id for g in dc.generators for x in ast.walk(g.target) if isinstance(x, ast.Name)}
+            if key.value.id not in loopvars:
+                continue
+            table = st.targets[0].id
+            reads = [x for x in ast.walk(f.node) if isinstance(x, ast.Subscript) and isinstance(x.ctx, ast.Load) and isinstance(x.value, ast.Name)
+                     and x.value.id == table and isinstance(x.slice, ast.Attribute) and x.slice.attr == key.attr]
+            if not reads:
+                continue
+            n += 1
+            obs.bad(rule, q, f'the per-item table `{table}` has one entry per item',
+                    f'`{norm(st)[:80]}` keys the results by `.{key.attr}` and `{norm(reads[0])}` reads them back by it: items that share a '
+                    f'{key.attr} (the same model twice with different parameters, unnamed models) share one entry, so one of them is '
+                    f'scored with the other\'s result', where(prog, f, st))
+    return n
+
+
+# ------------------------------------------------------------------------------------------------------- LATE-BIND
+def late_binding(ctx, obs, prefixes: Sequence[str], rule='LATE-BIND') -> int:
+    """A function (def / lambda) created inside a loop that reads the loop variable as a FREE variable sees the value the variable
+    has when the function is CALLED.  Used inside the same iteration that is fine; put into a list / dict / returned and called
+    after the loop, every one of them sees the last value.  Binding the value at definition time (a default argument
+    `lambda w, i=i: ..`, functools.partial) is the accepted idiom."""
+    prog = ctx.prog
+    n = 0
+    for q, f in sorted(prog.functions.items()):
+        if not _in_scope(q, prefixes) or f.parent is not None:
+            continue
+        for lp in [x for x in ast.walk(f.node) if isinstance(x, ast.For)]:
+            lvars = {x.id for x in ast.walk(lp.target) if isinstance(x, ast.Name)}
+            inner = [st for st in lp.body if isinstance(st, ast.FunctionDef)] + \
+                [x for st in lp.body for x in ast.walk(st) if isinstance(x, ast.Lambda)]
+            for fn in inner:
+                own = {a.arg for a in fn.args.args + fn.args.kwonlyargs + fn.args.posonlyargs}
+                if fn.args.vararg:
+                    own.add(fn.args.vararg.arg)
+                if fn.args.kwarg:
+                    own.add(fn.args.kwarg.arg)
+                body_nodes = [x for st in (fn.body if isinstance(fn, ast.FunctionDef) else [fn.body]) for x in ast.walk(st)]
+                stored = {x.id for x in body_nodes if isinstance(x, ast.Name) and isinstance(x.ctx, ast.Store)}
+                free = sorted({x.id for x in body_nodes if isinstance(x, ast.Name) and isinstance(x.ctx, ast.Load)
+                               and x.id in lvars and x.id not in own and x.id not in stored})
+                if not free:
+                    continue
+                n += 1
+                # does the function object leave the iteration?
+                escapes = None
+                if isinstance(fn, ast.FunctionDef):
+                    for x in ast.walk(lp):
+                        if isinstance(x, ast.Call) and isinstance(x.func, ast.Attribute) and x.func.attr in ('append', 'extend', 'insert', 'add', 'setdefault') \
+                                and any(isinstance(a, ast.Name) and a.id == fn.name for a in x.args):
+                            escapes = x
+                        if isinstance(x, ast.Assign) and isinstance(x.targets[0], ast.Subscript) and isinstance(x.value, ast.Name) and x.value.id == fn.name:
+                            escapes = x
+                        if isinstance(x, (ast.Yield, ast.Return)) and isinstance(x.value, ast.Name) and x.value.id == fn.name:
+                            escapes = x
+                else:
+                    par = {}
+                    for p_ in ast.walk(lp):
+                        for ch in ast.iter_child_nodes(p_):
+                            par[id(ch)] = p_
+                    p_ = par.get(id(fn))
+                    if isinstance(p_, ast.Call) and isinstance(p_.func, ast.Attribute) and p_.func.attr in ('append', 'extend', 'insert', 'add') and fn in p_.args:
+                        escapes = p_
+                    elif isinstance(p_, ast.Assign) and isinstance(p_.targets[0], ast.Subscript):
+                        escapes = p_
+                    elif isinstance(p_, (ast.List, ast.Tuple, ast.Dict)):
+                        escapes = p_
+                con = f'a function created in the loop at line {lp.lineno} does not outlive the iteration whose `{", ".join(free)}` it reads'
+                if escapes is not None:
+                    obs.bad(rule, q, con, f'the function defined at line {fn.lineno} reads `{", ".join(free)}` from the enclosing loop and is stored '
+                            f'(`{norm(escapes)[:60]}`): when it is called after the loop every stored function sees the LAST value of '
+                            f'`{free[0]}`', where(prog, f, fn))
+                else:
+                    obs.ok(rule, q, con, 'used inside the iteration only', where(prog, f, fn))
+    return n
